@@ -86,7 +86,7 @@ JudgePair(e) ==
        (IF ~rpd.ok THEN {} ELSE CV(rap.ok /\ SameSnap(rap.s, B), "reference-delta-does-not-yield-target-by-format")) \cup
        (IF ~Has(e, "r_ref") THEN {<<"V", "reference-delta-not-applied">>} ELSE
         \* warnings are not part of the reference clause
-        CV(e.r_ref.read = "ok" /\ e.r_ref.apply = "ok", "reference-delta-" \o e.r_ref.read) \cup
+        CV(e.r_ref.read = "ok" /\ e.r_ref.apply = "ok", "reference-delta-read-" \o e.r_ref.read \o (IF Has(e.r_ref, "apply") THEN "-apply-" \o e.r_ref.apply ELSE "")) \cup
         (IF e.r_ref.read # "ok" \/ e.r_ref.apply # "ok" THEN {} ELSE
          CV(ItemsAre(e.r_ref.res.items, B), "reference-delta-result-differs-from-target") \cup
          CV(e.r_ref.res.crc = Crc(B), "reference-delta-checksum-differs")))))
